@@ -43,8 +43,8 @@ func label(ex *Exch) string {
 	if ex.Hdr == nil {
 		return ""
 	}
-	x := ex.Hdr.Get("X-Cache")
-	cs := ex.Hdr.Get("Cache-Status")
+	// the proxy's own member is the last one (the origin's chain may have sent lines of its own)
+	x, cs := lastValue(ex.Hdr, "X-Cache"), lastValue(ex.Hdr, "Cache-Status")
 	switch {
 	case x == "HIT" || (strings.Contains(cs, "; hit") && !strings.Contains(cs, "revalidated")):
 		return "HIT"
@@ -56,9 +56,15 @@ func label(ex *Exch) string {
 	return ""
 }
 
+func lastValue(h http.Header, k string) string {
+	if v := h.Values(k); len(v) > 0 {
+		return v[len(v)-1]
+	}
+	return ""
+}
+
 func labelsConsistent(ex *Exch) bool {
-	x := ex.Hdr.Get("X-Cache")
-	cs := ex.Hdr.Get("Cache-Status")
+	x, cs := lastValue(ex.Hdr, "X-Cache"), lastValue(ex.Hdr, "Cache-Status")
 	if x == "" && cs == "" {
 		return true
 	}
